@@ -100,7 +100,7 @@ func (e *Exec) callRepo(f *ssa.Function, args []Term, x *ssa.Call) val {
 	for i, r := range res {
 		rt := sig.Results().At(i).Type()
 		t := e.def(fmt.Sprintf("%s_%d", x.Name(), i), e.g.sortOf(rt), r)
-		if inv := e.typeInv(rt, t); inv != "true" {
+		if inv := e.typeInv(rt, t); inv != "true" && e.parent == nil {
 			e.assume(implies(e.reach[e.curBlock], inv))
 		}
 		out = append(out, t)
@@ -175,6 +175,7 @@ func (g *Gen) calleeEnv(f *ssa.Function, args []Term) *exprEnv {
 	for i, p := range f.Params {
 		if i < len(args) {
 			env.vars[p.Name()] = typedTerm{t: args[i], typ: p.Type()}
+			env.args = append(env.args, typedTerm{t: args[i], typ: p.Type()})
 		}
 	}
 	sig := f.Signature
@@ -237,6 +238,12 @@ func (g *Gen) calleeAxioms(f *ssa.Function) {
 	}
 	guard := and(append(invs, reqs...)...)
 	nlaw := 0
+	exact := false
+	for _, cl := range ct.clauses {
+		if cl.kind == "ensures" && g.tagAllowed(cl.tags) && cl.expr.op == "binary" && cl.expr.name == "==" && cl.expr.args[0].op == "ident" && cl.expr.args[0].name == "result" {
+			exact = true // the result is characterised exactly: the order laws would only add instantiation noise
+		}
+	}
 	for _, cl := range ct.clauses {
 		switch cl.kind {
 		case "ensures", "assume":
@@ -255,6 +262,9 @@ func (g *Gen) calleeAxioms(f *ssa.Function) {
 		case "comparator":
 			nlaw++
 			if !g.tagAllowed(cl.tags) {
+				continue
+			}
+			if exact {
 				continue
 			}
 			g.lawAxioms(f, ct, cl, g.w.lawFindings(f, nlaw)) // recorded findings are never used as premises
